@@ -321,6 +321,10 @@ def run(pm, ctx):
     run_decisions(pm, ctx, 'C14-RD', OWN['C14'])
     from .. import exprdrift
     exprdrift.run(pm, ctx, 'C14-RE', OWN['C14'])
+    from ..conddrift import run_calls
+    run_calls(pm, ctx, 'C14-RC', OWN['C14'])
+    from .. import memo
+    memo.run(pm, ctx, 'C14-MK', OWN['C14'])
 
 
 def _parents_until(node, stop):
